@@ -919,7 +919,11 @@ class SFTPClient(BaseSFTP, ClosingContextManager):
         return None, None
 
     def _finish_responses(self, fileobj):
-        while fileobj in self._expecting.values():
+        while True:
+            # (the prefetch thread may be adding requests concurrently)
+            with self._lock:
+                if fileobj not in self._expecting.values():
+                    break
             self._read_response()
             fileobj._check_exception()
 
